@@ -38,6 +38,21 @@ Section Gen.
     - inversion H; subst; exact I.
   Qed.
 
+  (* a yielded value the checker rejects: the caller of next() / send() gets the checker's exception instead of the value *)
+  Lemma w_send_bad_yield : forall w v y g' e,
+    inner_send body (w_inner w) v = (IYield y, g') ->
+    (w_init w = true -> exists tv', check st_ v (w_tv w) = (Ok tt, tv')) ->
+    (forall tv, fst (check yt y tv) = Raise e) ->
+    fst (w_send w v) = WRaise e.
+  Proof.
+    intros w v y g' e Hi Hpre Hbad. unfold GenWrapper.w_send. rewrite Hi.
+    destruct (w_init w).
+    - destruct (Hpre eq_refl) as [tv' E]. rewrite E. specialize (Hbad tv'). destruct (check yt y tv') as [[u|e'] tv2]; simpl in Hbad; [discriminate|].
+      inversion Hbad; subst. reflexivity.
+    - specialize (Hbad (w_tv w)). destruct (check yt y (w_tv w)) as [[u|e'] tv2]; simpl in Hbad; [discriminate|].
+      inversion Hbad; subst. reflexivity.
+  Qed.
+
   Definition no_throw (o : gop) : bool := match o with OpThrow _ => false | _ => true end.
 
   (* C03, generators: every value next()/send() hands to the caller, and every value carried by the final
